@@ -391,6 +391,9 @@ fn expand_enum(
         .then(|| quote! { match *self {} })
         .unwrap_or_else(|| quote! { match self { #match_arms } });
 
+    let mut bounds = bounds;
+    bounds.extend(container_attrs.common.bounds.0.clone());
+
     Ok((bounds, body))
 }
 
